@@ -772,10 +772,10 @@ func (z *Decimal) FMA(x, y, u *Decimal) *Decimal {
 		z.prec = umax32(umax32(x.prec, y.prec), u.prec)
 	}
 
-	if u.form == zero {
+	if u.form == zero && x.form == finite && y.form == finite {
+		// x*y is not zero: adding ±0 changes nothing
 		return z.Mul(x, y)
 	}
-	// 0 < |u| <= Inf
 
 	// avoid trashing z if u == z
 	z0 := z
@@ -818,7 +818,10 @@ func (z *Decimal) FMA(x, y, u *Decimal) *Decimal {
 
 	// ±0 * y + u
 	// x * ±0 + u
-	return z.Set(u)
+	// The sign of an exact zero sum follows the rules of Add.
+	z0.acc = Exact
+	z0.form = zero
+	return z.Add(z0, u)
 }
 
 // Neg sets z to the (possibly rounded) value of x with its sign negated,
